@@ -168,5 +168,16 @@ pub fn specs(tier: &str) -> Vec<ExpSpec> {
             v.push(ExpSpec::new(c, alphabet(512), if th { 9 } else { 6 }));
         }
     }
+    // FAT32 with clusters of two sectors (sector numbers and cluster numbers are easy to mix up)
+    {
+        let spec = vol::VolSpec { name: "t32-512x2".into(), fat: FatType::Fat32, bps: 512, spc: 2, fats: 2, root_entries: 0, clusters: Some(65525), free: Some(12), tail: 0 };
+        let (img, cands) = vol::build(&spec).expect("fat32 512x2");
+        let cfg = populated(&vol::cfg_from(&spec.name, img, cands), 1024);
+        for c in variants(&cfg) {
+            if c.name.contains("st0-exact") || c.name.contains("nofree") {
+                v.push(ExpSpec::new(c, alphabet(1024), if th { 7 } else { 4 }));
+            }
+        }
+    }
     v
 }
